@@ -879,3 +879,47 @@ m('W3-transform-accepts-deep-replacement', 'C08', 'W3', 'Transform/one-level', '
                 throw py::value_error(oss.str());
             }
 """, "")
+m('W2-leafless-node-skips-node-function', 'C05', 'W2', 'PyTreeSpec::WalkImpl/node-function-on-every-path',
+  'src/treespec/traversal.cpp',
+  """                const ssize_t size = py::ssize_t_cast(agenda.size());
+                EXPECT_GE(size, node.arity, "Too few elements for custom type.");
+
+                if (PassRawNode && f_node) [[likely]] {""",
+  """                const ssize_t size = py::ssize_t_cast(agenda.size());
+                EXPECT_GE(size, node.arity, "Too few elements for custom type.");
+
+                if (node.arity == 0 && node.kind != PyTreeKind::Custom) [[unlikely]] {
+                    agenda.emplace_back(MakeNode(node, nullptr, 0));
+                    break;
+                }
+                if (PassRawNode && f_node) [[likely]] {""")
+m('D2-own-mode-read-for-the-global-namespace', 'C13', 'D2', 'PyTreeSpec::FlattenIntoWithPath/reads-the-callers-namespace',
+  'src/treespec/flatten.cpp',
+  """        is_dict_insertion_ordered = IsDictInsertionOrdered(registry_namespace);
+        is_dict_insertion_ordered_in_current_namespace =
+            IsDictInsertionOrdered(registry_namespace, /*inherit_global_namespace=*/false);
+    }
+
+    auto stack""",
+  """        is_dict_insertion_ordered = IsDictInsertionOrdered(registry_namespace);
+        is_dict_insertion_ordered_in_current_namespace =
+            IsDictInsertionOrdered(std::string{}, /*inherit_global_namespace=*/false);
+    }
+
+    auto stack""")
+m('NS1-flatten-classifies-in-the-global-namespace', 'C02', 'NS1', 'PyTreeSpec::FlattenIntoImpl/GetKind',
+  'src/treespec/flatten.cpp',
+  """        node.kind =
+            PyTreeTypeRegistry::GetKind<NoneIsLeaf>(handle, node.custom, registry_namespace);
+        const auto recurse =
+            // NOLINTNEXTLINE[misc-no-recursion]
+            [this, &found_custom, &leaf_predicate, &registry_namespace, &leaves, &depth](""",
+  """        node.kind =
+            PyTreeTypeRegistry::GetKind<NoneIsLeaf>(handle, node.custom, std::string{});
+        const auto recurse =
+            // NOLINTNEXTLINE[misc-no-recursion]
+            [this, &found_custom, &leaf_predicate, &registry_namespace, &leaves, &depth](""")
+m('NS1-flatten-up-to-looks-up-globally', 'C12', 'NS1', 'PyTreeSpec::FlattenUpTo/Lookup',
+  'src/treespec/flatten.cpp',
+  """                        PyTreeTypeRegistry::Lookup<NONE_IS_NODE>(py::type::of(object), m_namespace);""",
+  """                        PyTreeTypeRegistry::Lookup<NONE_IS_NODE>(py::type::of(object), "");""")
